@@ -8,10 +8,11 @@ func init() {
 	lf := "loglist3/logfilter.go"
 	register(genFile{name: "Temporal", imports: []string{"CTV.Basic.I64"}, units: []unit{
 		// ValidateChain: the leaf is rejected when either condition holds.
-		{"ValidateChain.rejectStart", condKernel(cc, "ValidateChain", []string{"naStart", "Before"}, "validateChainRejectStart", "(start : Option Int) (t : Int)",
-			Spec{Repl: optRepl(map[string]string{"naStart != nil": "start.isSome", "*naStart": "(start.getD 0)", "cert.NotAfter": "t"})})},
-		{"ValidateChain.rejectLimit", condKernel(cc, "ValidateChain", []string{"naLimit", "Before"}, "validateChainRejectLimit", "(limit : Option Int) (t : Int)",
-			Spec{Repl: map[string]string{"naLimit != nil": "limit.isSome", "*naLimit": "(limit.getD 0)", "cert.NotAfter": "t"}})},
+		// (anchored on the canonical view of extract/canon.go: survives renames, hoisting and helper extraction)
+		{"ValidateChain.rejectStart", semCond(cc, "ValidateChain", []string{"$CertValidationOpts.notAfterStart", "Before"}, "validateChainRejectStart", "(start : Option Int) (t : Int)",
+			Spec{Repl: optRepl(map[string]string{"$CertValidationOpts.notAfterStart != nil": "start.isSome", "*$CertValidationOpts.notAfterStart": "(start.getD 0)", "$elem0.NotAfter": "t"})})},
+		{"ValidateChain.rejectLimit", semCond(cc, "ValidateChain", []string{"$CertValidationOpts.notAfterLimit", "Before"}, "validateChainRejectLimit", "(limit : Option Int) (t : Int)",
+			Spec{Repl: map[string]string{"$CertValidationOpts.notAfterLimit != nil": "limit.isSome", "*$CertValidationOpts.notAfterLimit": "(limit.getD 0)", "$elem0.NotAfter": "t"}})},
 		// IndexByDate: a shard is skipped when either condition holds; the first shard not skipped is returned.
 		{"IndexByDate.skipLower", condKernel(ml, "TemporalLogClient.IndexByDate", []string{"interval.lower"}, "indexByDateSkipLower", "(lower : Option Int) (when : Int)",
 			Spec{Repl: map[string]string{"interval.lower != nil": "lower.isSome", "*interval.lower": "(lower.getD 0)", "when": "when"}})},
